@@ -48,12 +48,12 @@ CLAIMS.update({
          'exception-escape analysis + ownership/deferred-capture + CFG path rules over clang AST/CFG'),
  'C14': ('A8 framing/dispatch never throw (parse only inside CatchThrow, typed json access under type tests), no narrow length sum, fetchNoCopy result proven '
          'non-null or tested, resumable-framing return discipline, complete-then-erase with sibling agreement, no container handle live across the user callback, '
-         'bounded recursion, FindEndPos scan guards, TimeoutMonitor count/timer protocol (count changes only with the ring, timer disabled only on a fresh zero test, nothing decided from a pre-callback value), no unbounded stack allocation, no narrow integer get<T>() without a range test (A9g for JSON), owner re-installs the monitor callback on re-initialisation, framing state reset on consuming/failing exits', '§4 C14', 'exception-escape + input-hardening + re-entrancy rules over clang AST/CFG'),
+         'bounded recursion, FindEndPos scan guards, TimeoutMonitor count/timer protocol (count changes only with the ring, timer disabled only on a fresh zero test, nothing decided from a pre-callback value), no unbounded stack allocation, no narrow integer get<T>() without a range test (A9g for JSON), owner re-installs the monitor callback on re-initialisation, framing state reset on consuming/failing exits, encoder/decoder agreement on every refusal (reasons classified, length bounds folded from both guards), no scanner error value answered with "need more data"', '§4 C14, §10.3 D33', 'exception-escape + input-hardening + re-entrancy rules over clang AST/CFG'),
  'C15': ('every datagram-filled local initialised or status-checked, reported values control dependent on successful reads, bounded compression recursion, '
-         'deserializer bounds-check/width/advance agreement over all readers, complete-then-erase of lookups, no exception on the datagram path, TimeoutMonitor count/timer protocol (both sides), no unbounded stack allocation, receive length bounded by the receive buffer, reported Result fresh per datagram', '§4 C15',
+         'deserializer bounds-check/width/advance agreement over all readers, complete-then-erase of lookups, no exception on the datagram path, TimeoutMonitor count/timer protocol (both sides), no unbounded stack allocation, receive length bounded by the receive buffer, reported Result fresh per datagram, no deserializer status dropped on the datagram path', '§4 C15',
          'input-hardening (def/use + guard) rules + sibling agreement over clang AST/CFG'),
  'C16': ('re-entrancy counter bracket around every user function (abstract counter dataflow), state writes only behind the re-entrancy test, transition step '
-         'order, delegation/handler/route precedence with first-match scan shape, enter/exit and sub-machine start/stop pairing, definition calls rejected while running', '§4 C16',
+         'order, delegation/handler/route precedence with first-match scan shape, enter/exit and sub-machine start/stop pairing, definition calls rejected while running, transition target read from the live route after the guard/action callbacks (late binding)', '§4 C16',
          'counter dataflow + CFG order/pairing rules over clang AST/CFG'),
 })
 CLAIMS.update({
@@ -62,14 +62,14 @@ CLAIMS.update({
          '(whole program), foreach hands callbacks the live cell\'s pointer', '§4 C08', 'type rules + guard/pairing path rules over clang AST/CFG (templates via explicit instantiation TU)'),
  'C17': ('lifecycle propagation matrix over every composite and child field (delete/reset/install/ready/stop-pause-resume), base-hook must-call on every override, '
          'notifications only as cancellable deferred tasks cancelled by stop/reset/destructor, base lifecycle gates and single onFinal, held-back child results in '
-         'serial composites, reset-before-rerun', '§4 C17', 'sibling-agreement matrix + must-call/path rules over clang AST/CFG'),
+         'serial composites, reset-before-rerun, replay fidelity of held-back results (closure re-enters the handler with its own unmodified parameters, nothing applied before the held-back test), every run armed with the configured time-out', '§4 C17', 'sibling-agreement matrix + must-call/path rules over clang AST/CFG'),
  'C18': ('waiters re-register before every wait, wake-up conditional only on the waiter queue, cancellation test between wait and resource, broadcast/condition '
-         'post shapes, scheduler cleanup/switch/schedule shapes, every routine-destroying site resumes the joiner, cancel exit withdraws the waiter token and passes on a wake-up addressed to it, success exit only through a re-test of the resource after wait()', '§4 C18', 'CFG path rules over clang AST/CFG (templates via explicit instantiation TU)'),
+         'post shapes, scheduler cleanup/switch/schedule shapes, every routine-destroying site resumes the joiner, cancel exit withdraws the waiter token and passes on a wake-up addressed to it, success exit only through a re-test of the resource after wait(), a "post already pending" flag believed only where the posted function clears it', '§4 C18', 'CFG path rules over clang AST/CFG (templates via explicit instantiation TU)'),
  'C19': ('constant tables equal tables generated from the standards\' formulae (Base64, CRC-16/32, AES S-box/inverse/Rcon, MD5 constants/shifts/order/state/padding, '
          'scalable-integer ranges), every constant-table subscript in range by interval evaluation, serializer/deserializer width and byte-order agreement, '
-         'capacity test before stores, digit validation, no carry lost in the 16-bit one\'s-complement checksum (interval abstract interpretation of the accumulator), AES round/permutation/matrix structure vs FIPS-197 (index expressions evaluated over finite domains), MD5::update width agreement (carry test and block loop)', '§4 C19, §10.7', 'constant-table conformance + interval evaluation/abstract interpretation + sibling agreement over clang AST/CFG'),
+         'capacity test before stores, digit validation, no carry lost in the 16-bit one\'s-complement checksum (interval abstract interpretation of the accumulator), AES round/permutation/matrix structure vs FIPS-197 (index expressions evaluated over finite domains), MD5::update width agreement (carry test and block loop) and single input cursor, no wrapped remaining-length re-read in the CRC/checksum loops, residue-class walk of the Base64 decoding loop (every store offset below the capacity DecodeLength guarantees for that residue)', '§4 C19, §10.3 D30, §10.7', 'constant-table conformance + interval evaluation/abstract interpretation + sibling agreement over clang AST/CFG'),
  'C20': ('seconds->milliseconds conversion wide enough for the operand\'s type range, re-arm before callback, next instant depends on max(now, previous target), '
-         'time-zone symmetry, running<=>armed, out-parameter/strictly-after discipline of every calculateNextLocalTimeSec, day scans offer a full period of strictly-future days (interval abstract interpretation of the loop counter)', '§4 C20',
+         'time-zone symmetry, running<=>armed, out-parameter/strictly-after discipline of every calculateNextLocalTimeSec, day scans offer a full period of strictly-future days (interval abstract interpretation of the loop counter), rounding direction of the wait, no live iteration over the calendar\'s watcher list, the search floor is a fired instant (never an armed one), sentinel discipline for cron_next', '§4 C20, §10.3 D31/D32',
          'interval evaluation/abstract interpretation + data-dependence/path rules over clang AST/CFG'),
 })
 CLAIMS['C07'] = ('index arithmetic of the byte buffer decided by linear constant propagation (every field an affine form over its entry value, relational '
